@@ -72,8 +72,8 @@ theorem engine_run_instrument (e : Engine) (ops : List (Nat × Op)) (i : Nat) (m
 
 /-- (3) An order stops being tracked as soon as the exchange reports it cancelled / fully filled /
 failed / expired — from every prior state. -/
-theorem untracked_on_inactive (m : Orders) (cid : Nat) (q p : Rat) (k : Inactive) :
-    lookup (step m (.snapshot ⟨cid, q, p, .inactive k⟩)) cid = none := by
+theorem untracked_on_inactive (m : Orders) (cid : Nat) (q p : Rat) (k : Inactive) (x : Nat) :
+    lookup (step m (.snapshot ⟨cid, q, p, .inactive k, x⟩)) cid = none := by
   simp only [step, updateFromSnapshot]
   cases hl : lookup m cid with
   | none => simpa using hl
@@ -81,12 +81,12 @@ theorem untracked_on_inactive (m : Orders) (cid : Nat) (q p : Rat) (k : Inactive
 
 /-- (3) … or reports it open with nothing left to fill — from every prior state, whatever the
 report's timestamp. -/
-theorem untracked_on_open_nothing_left (m : Orders) (cid : Nat) (q p : Rat) (o : Open)
+theorem untracked_on_open_nothing_left (m : Orders) (cid : Nat) (q p : Rat) (o : Open) (x : Nat)
     (hz : remZero q o = true) :
-    lookup (step m (.snapshot ⟨cid, q, p, .active (.opn o)⟩)) cid = none := by
-  have h := step_refines m (.snapshot ⟨cid, q, p, .active (.opn o)⟩) cid rfl
+    lookup (step m (.snapshot ⟨cid, q, p, .active (.opn o), x⟩)) cid = none := by
+  have h := step_refines m (.snapshot ⟨cid, q, p, .active (.opn o), x⟩) cid rfl
   simp only [stateOf, Lifecycle.stepOp, Op.input, ↓reduceIte, hz, Lifecycle.step] at h
-  cases hl : lookup (step m (.snapshot ⟨cid, q, p, .active (.opn o)⟩)) cid with
+  cases hl : lookup (step m (.snapshot ⟨cid, q, p, .active (.opn o), x⟩)) cid with
   | none => rfl
   | some x => simp [hl] at h
 
@@ -100,14 +100,14 @@ theorem untracked_on_cancel_ok (m : Orders) (cid : Nat) :
   | some x => simp [hl] at h
 
 /-- (3) An order becomes tracked when a request for it is sent. -/
-theorem tracked_on_request (m : Orders) (cid : Nat) (q p : Rat) :
-    stateOf (step m (.recOpen cid q p)) cid = some .inFlight := by
+theorem tracked_on_request (m : Orders) (cid : Nat) (q p : Rat) (x : Nat) :
+    stateOf (step m (.recOpen cid q p x)) cid = some .inFlight := by
   simp [stateOf, step, recordInFlightOpen, lookup_insert_self]
 
 /-- (3) … or when the exchange reports it open with something left to fill. -/
-theorem tracked_on_open_report (m : Orders) (cid : Nat) (q p : Rat) (o : Open)
+theorem tracked_on_open_report (m : Orders) (cid : Nat) (q p : Rat) (o : Open) (x : Nat)
     (hz : remZero q o = false) :
-    (stateOf (step m (.snapshot ⟨cid, q, p, .active (.opn o)⟩)) cid).isSome = true := by
+    (stateOf (step m (.snapshot ⟨cid, q, p, .active (.opn o), x⟩)) cid).isSome = true := by
   rw [step_refines _ _ _ rfl]
   simp only [Lifecycle.stepOp, Op.input, ↓reduceIte, hz]
   cases h : stateOf m cid with
@@ -149,7 +149,7 @@ def NoRollback (before after : Option Active) : Prop :=
 timestamp — for every op except re-sending an open request with an id that is already tracked
 (the code overwrites the entry and logs an error; excluded point, run on the implementation). -/
 theorem time_monotone_step (m : Orders) (op : Op) (c : Nat) (hx : op.exchangeStatesOnly = true)
-    (hdup : ∀ q p, op = .recOpen c q p → stateOf m c = none) :
+    (hdup : ∀ q p x, op = .recOpen c q p x → stateOf m c = none) :
     NoRollback (stateOf m c) (stateOf (step m op) c) := by
   intro t ht
   rw [step_refines m op c hx]
@@ -167,10 +167,10 @@ theorem time_monotone_step (m : Orders) (op : Op) (c : Nat) (hx : op.exchangeSta
         -- only a duplicate open request can reach here
         exfalso
         cases op with
-        | recOpen c' q p =>
+        | recOpen c' q p x =>
           simp only [Op.input] at hi
           by_cases hc : c' = c
-          · subst hc; have := hdup q p rfl; simp [hs] at this
+          · subst hc; have := hdup q p x rfl; simp [hs] at this
           · simp [hc] at hi
         | recCancel c' => simp only [Op.input] at hi; split at hi <;> simp at hi
         | cancelResp c' ok =>
@@ -228,7 +228,7 @@ re-sent for it, the held exchange timestamp never decreases (any order, duplicat
 of reports). -/
 theorem time_monotone_run (m : Orders) (ops : List Op) (c : Nat)
     (hx : ∀ op ∈ ops, op.exchangeStatesOnly = true)
-    (hdup : ∀ op ∈ ops, ∀ q p, op ≠ .recOpen c q p)
+    (hdup : ∀ op ∈ ops, ∀ q p x, op ≠ .recOpen c q p x)
     (t t' : Int) (h0 : heldTime (stateOf m c) = some t)
     (h1 : heldTime (stateOf (run m ops) c) = some t')
     (htracked : ∀ k, k ≤ ops.length → (stateOf (run m (ops.take k)) c).isSome = true) :
@@ -239,7 +239,7 @@ theorem time_monotone_run (m : Orders) (ops : List Op) (c : Nat)
     rw [h0] at h1; injection h1 with h1; omega
   | cons op ops ih =>
     have hstep := time_monotone_step m op c (hx op (by simp))
-      (fun q p he => absurd he (hdup op (by simp) q p)) t h0
+      (fun q p x he => absurd he (hdup op (by simp) q p x)) t h0
     have htr1 := htracked 1 (by simp)
     simp only [List.take_succ_cons, List.take_zero, run, List.foldl_cons, List.foldl_nil] at htr1
     rcases hstep with hnone | ⟨t1, ht1, hle⟩
@@ -256,15 +256,15 @@ def o1 : Open := ⟨7, 1, 0⟩
 def o2 : Open := ⟨7, 2, 5⟩
 def o3full : Open := ⟨7, 3, 10⟩
 -- request, open report, stale older report ignored, cancel sent, cancel failed → restored to newest open
-example : stateOf (run [] [.recOpen 1 10 100, .snapshot ⟨1, 10, 100, .active (.opn o2)⟩,
-    .snapshot ⟨1, 10, 100, .active (.opn o1)⟩, .recCancel 1, .cancelResp 1 false]) 1 = some (.opn o2) := by
+example : stateOf (run [] [.recOpen 1 10 100, .snapshot ⟨1, 10, 100, .active (.opn o2), 0⟩,
+    .snapshot ⟨1, 10, 100, .active (.opn o1), 0⟩, .recCancel 1, .cancelResp 1 false]) 1 = some (.opn o2) := by
   decide +kernel
 -- open report with nothing left untracks even a cancel-in-flight order
-example : stateOf (run [] [.recOpen 1 10 100, .snapshot ⟨1, 10, 100, .active (.opn o2)⟩, .recCancel 1,
-    .snapshot ⟨1, 10, 100, .active (.opn o3full)⟩]) 1 = none := by decide +kernel
+example : stateOf (run [] [.recOpen 1 10 100, .snapshot ⟨1, 10, 100, .active (.opn o2), 0⟩, .recCancel 1,
+    .snapshot ⟨1, 10, 100, .active (.opn o3full), 0⟩]) 1 = none := by decide +kernel
 example : remZero 10 o3full = true ∧ remZero 10 o2 = false := by decide +kernel
 -- the hypotheses of `time_monotone_run` are met by a non-trivial history
-example : heldTime (stateOf (run [] [.recOpen 1 10 100, .snapshot ⟨1, 10, 100, .active (.opn o1)⟩]) 1) = some 1 := by
+example : heldTime (stateOf (run [] [.recOpen 1 10 100, .snapshot ⟨1, 10, 100, .active (.opn o1), 0⟩]) 1) = some 1 := by
   decide +kernel +kernel
 
 end BarterModel.Props.C01
